@@ -92,3 +92,14 @@ _stub("C08", "Decides structural clauses of C08 with an order-taint analysis ove
              "disambiguation of intermediate names is fed from the sorted source list, and the hash-ordered parts file is never read "
              "by the font writer. Does NOT decide ninja's scheduler, fontTools' SOURCE_DATE_EPOCH handling or external tools.",
       "ninja scheduling; fontTools timestamps; picosvg/resvg/pngquant determinism; sort ties under non-injective keys")
+
+_stub("C01", "Decides structural clauses of C01: (a) every composition, inverse and application of an affine in the SVG -> Paint -> "
+             "COLR pipeline is between compatible coordinate spaces (units-of-measure typing over viewBox / em / font / bbox spaces "
+             "with target/donor owners, all paths enumerated, literal affines cross-checked by the sign of their determinant), incl. "
+             "the reuse branch where the gradient is counter-transformed by the inverse reuse transform; (b) scalar dimensions of the "
+             "scale and advance rule; (c) z-order polarity: a two-point domain {document, reversed} shows PaintColrLayers and the "
+             "returned tuple are in document order and consumers keep it; (d) to_ufo_paint keys equal otData PaintFormatN fields, "
+             "every dataclass field is serialised, children()/colors() cover every Paint-typed field; (e) group opacity and "
+             "stop x shape opacity encoding; (f) at most one transform wrapper above a PaintGlyph. Does NOT decide numerical equality "
+             "of the rendered picture, picosvg's normal form, ufo2ft compilation or rounding bounds.",
+      "rendered-picture equality; _decompose_uniform_transform arithmetic; ufo2ft/fontTools compilation; rounding")
